@@ -7,7 +7,7 @@
  *   drv_selfcal run TABLE SEED FROM TO
  *       TABLE: text rendering of the configuration table exported by TLC
  *       from SelfCalTable.tla, one row per line:
- *         id type P k topo nu lim pt et me
+ *         id type P k topo nu lim pt et me ko
  *       runs rows FROM..TO-1 (row = line number, 0-based)
  * env: VT_TRACE=<path> (default stdout), SC_TIMEOUT=<seconds per solve>
  *
@@ -36,6 +36,7 @@ typedef struct cfg {
     int lim;
     int pt, et;			/* tolerances 10^-pt, 10^-et */
     int me;			/* measurement error model on */
+    char ko[8];			/* kit order: use, rev, hi8, pad */
 } cfg_t;
 
 static int read_row(const char *path, int row, cfg_t *c)
@@ -50,9 +51,9 @@ static int read_row(const char *path, int row, cfg_t *c)
     }
     while (fgets(line, sizeof(line), fp) != NULL) {
 	if (n++ == row) {
-	    if (sscanf(line, "%d %7s %d %d %7s %d %d %d %d %d", &c->id,
+	    if (sscanf(line, "%d %7s %d %d %7s %d %d %d %d %d %7s", &c->id,
 			c->type, &c->P, &c->k, c->topo, &c->nu, &c->lim,
-			&c->pt, &c->et, &c->me) == 10)
+			&c->pt, &c->et, &c->me, c->ko) == 11)
 		ok = 0;
 	    break;
 	}
@@ -368,6 +369,39 @@ static int build_scenario(sc_scn_t *sc, const cfg_t *c, vt_rng_t *rng,
 	    case 2: sc_single(sc, rng, 1 + vt_below(rng, 2), us); break;
 	    }
 	}
+	return 0;
+    }
+    if (strcmp(c->topo, "KIT") == 0) {
+	/* multi-line TRL; parameters enter the table in order of first use:
+	 * line 1, reflect, lines 2..5, three known lines */
+	double fs[3 * SC_MAXF];
+	int n = 0, ul[5], ur = -1, ks1, ks2, kv;
+	double complex r = rand_gamma(rng, 0.6, 1.0);
+
+	for (int b = 0; b < 3; ++b)
+	    n += band(sc->nf, b, &fs[n]);
+	for (int i = 0; i < 5; ++i) {
+	    /* phases spread over +-(30..150) degrees, away from the through */
+	    double la = (0.5 + 0.42 * i) * (i & 1 ? -1 : 1);
+	    double complex l = (0.5 + 0.4 * vt_unit(rng)) *
+		(cos(la) + I * sin(la));
+
+	    if (i == 1)
+		ur = sc_unknown(sc, rng, r, radius, vg);
+	    ul[i] = sc_unknown(sc, rng, l, radius, vg);
+	}
+	ks1 = sc_scalar(sc, rand_gamma(rng, 0.5, 0.9));
+	kv = sc_known_vector(sc, rng, fs, n);
+	ks2 = sc_scalar(sc, rand_gamma(rng, 0.5, 0.9));
+	sc_line(sc, rng, 1, 2, SC_MATCH, ul[0], ul[0], SC_MATCH);
+	sc_single(sc, rng, 1, ur);
+	sc_through(sc, rng, 1, 2);
+	for (int i = 1; i < 5; ++i)
+	    sc_line(sc, rng, 1, 2, SC_MATCH, ul[i], ul[i], SC_MATCH);
+	sc_line(sc, rng, 1, 2, SC_MATCH, ks1, ks1, SC_MATCH);
+	sc_line(sc, rng, 1, 2, SC_MATCH, kv, kv, SC_MATCH);
+	sc_line(sc, rng, 1, 2, SC_MATCH, ks2, ks2, SC_MATCH);
+	sc_single(sc, rng, 2, ur);
 	return 0;
     }
     if (strcmp(c->topo, "RLINE") == 0) {
@@ -862,11 +896,13 @@ static void run_case(const char *table, uint64_t seed, int row)
 		0.6);
     }
     sc.ab = vt_below(&rng, 3) == 0;
+    snprintf(sc.kit, sizeof(sc.kit), "%s", c.ko);
     vt_put("{\"e\":\"Cfg\",\"id\":%d,\"ty\":\"%s\",\"p\":%d,\"k\":%d,\"r\":%d,"
 	    "\"c\":%d,\"topo\":\"%s\","
 	    "\"nu\":%d,\"lim\":%d,\"pt\":%d,\"et\":%d,\"me\":%d,\"nf\":%d,"
-	    "\"fm\":\"%s\"}", c.id, c.type, c.P, c.k, sc.rows, sc.cols, c.topo,
-	    c.nu, c.lim, c.pt, c.et, c.me, nf, sc.ab ? "ab" : "m");
+	    "\"fm\":\"%s\",\"ko\":\"%s\"}", c.id, c.type, c.P, c.k, sc.rows,
+	    sc.cols, c.topo, c.nu, c.lim, c.pt, c.et, c.me, nf,
+	    sc.ab ? "ab" : "m", c.ko);
     vt_end_line();
     if (type < 0 || build_scenario(&sc, &c, &rng, &analytic_shape) != 0) {
 	vt_put("{\"e\":\"Setup\",\"tag\":\"main\",\"ok\":0,\"adds\":0,"
